@@ -1444,6 +1444,10 @@ class Engine:
             raise Undecided('float constant (contract does not opt in to float_as_real)')
         if isinstance(node.value, float) and self.c.float_model == 'relerr' and node.value != int(node.value):
             raise Undecided('non-integral float constant under the relative-error float model')
+        if isinstance(node.value, bytes) and self.c.consts.get('__bytes_as_lists__'):
+            # (C33, opt-in through Contract.consts) a bytes literal is the list of its byte values, so that byte buffers
+            # modelled as List[int] can be extended by literals; without the opt-in bytes stay opaque constants as before
+            return self.list_of(list(node.value)) if node.value else SList(z3.IntVal(0), None, None)
         return node.value
 
     def ev_Name(self, node, st):
